@@ -150,17 +150,41 @@ class FuncScan:
                 r = root_name(val)
                 if isinstance(val, ast.Call) and isinstance(val.func, ast.Name) and val.func.id in ("enumerate", "zip", "list", "tuple", "reversed") and val.args:
                     r = root_name(val.args[0])
+                if isinstance(val, ast.Call) and isinstance(val.func, ast.Name) and val.func.id == "getattr" and val.args:
+                    r = root_name(val.args[0])      # getattr(f, "attr", default): (part of) the field object
                 if isinstance(val, (ast.IfExp,)):
                     r = root_name(val.body)
                 if isinstance(val, ast.BinOp):
                     r = root_name(val.left)
                 if isinstance(val, (ast.Tuple, ast.List)) and val.elts:
                     r = root_name(val.elts[0])
+                if r not in self.fieldish and isinstance(val, (ast.Tuple, ast.List)) and not isinstance(tgt, ast.Name):
+                    # for suffix, sub in (("_key", key_field), ("_value", value_field)): a literal that mentions field objects
+                    hit = [x for x in ast.walk(val) if isinstance(x, ast.Name) and x.id in self.fieldish]
+                    if hit:
+                        r = hit[0].id
                 if r in self.fieldish and not tn <= self.fieldish:
                     rooted_at_instance = any(isinstance(x, ast.Attribute) and x.attr in ("_instance",) for x in ast.walk(val))
                     if not rooted_at_instance:
                         self.fieldish |= tn
                         changed = True
+
+    def container_aliases(self):
+        """local names bound to a container reached THROUGH a field object: `x = getattr(f, "_reg", ..)`, `y = x[k]`"""
+        out = set()
+        changed = True
+        while changed:
+            changed = False
+            for tgt, val in self._assignments():
+                if not isinstance(tgt, ast.Name) or tgt.id in out:
+                    continue
+                via_getattr = isinstance(val, ast.Call) and isinstance(val.func, ast.Name) and val.func.id == "getattr" \
+                    and val.args and root_name(val.args[0]) in self.fieldish
+                via_alias = isinstance(val, ast.Subscript) and isinstance(val.value, ast.Name) and val.value.id in out
+                if via_getattr or via_alias:
+                    out.add(tgt.id)
+                    changed = True
+        return out
 
     def is_field_expr(self, e):
         r = root_name(e)
@@ -197,6 +221,10 @@ def _lambda_params(v):
     return out
 
 
+def _span(node):
+    return [node.lineno, node.col_offset, node.end_lineno, node.end_col_offset]
+
+
 def _mentions_attr(val, obj, attr):
     """does the expression read `<obj>.<attr>` (or getattr(<obj>, "<attr>"))?"""
     o = ast.unparse(obj)
@@ -205,6 +233,20 @@ def _mentions_attr(val, obj, attr):
             return True
         if isinstance(x, ast.Call) and isinstance(x.func, ast.Name) and x.func.id == "getattr" and len(x.args) >= 2 \
                 and _const_str(x.args[1]) == attr and ast.unparse(x.args[0]) == o:
+            return True
+    return False
+
+
+def _guarded_by_membership(fn, stmt, name):
+    """is the store `name[k] = v` preceded in the function by a test of `name` (`k in name`, `name.get(k ..)`)?"""
+    for n in ast.walk(fn):
+        if getattr(n, "lineno", 10 ** 9) > stmt.lineno:
+            continue
+        if isinstance(n, ast.Compare) and any(isinstance(o, (ast.In, ast.NotIn)) for o in n.ops) and \
+                any(isinstance(c, ast.Name) and c.id == name for c in n.comparators):
+            return True
+        if isinstance(n, ast.Call) and isinstance(n.func, ast.Attribute) and n.func.attr == "get" and \
+                isinstance(n.func.value, ast.Name) and n.func.value.id == name:
             return True
     return False
 
@@ -264,12 +306,12 @@ def scan(repo=None):
                     # a computed attribute name is recorded as <dynamic>
                     attr = _const_str(n.args[1])
                     if fs.is_field_expr(n.args[0]):
-                        writes.append((n.lineno, n.args[0], attr if attr is not None else "<dynamic>", n.args[2]))
+                        writes.append((n.lineno, n.args[0], attr if attr is not None else "<dynamic>", n.args[2], n))
                 elif isinstance(n, ast.Call) and isinstance(n.func, ast.Attribute) and n.func.attr in _MUTATORS \
                         and isinstance(n.func.value, ast.Attribute) and fs.is_field_expr(n.func.value.value):
                     # f.attr.append(x) / f.attr.setdefault(k, v) / f.attr.update(..): a container hanging off a shared Field
                     val = n.args[-1] if n.args else ast.Constant(value=None)
-                    writes.append((n.lineno, n.func.value.value, n.func.value.attr, val))
+                    writes.append((n.lineno, n.func.value.value, n.func.value.attr, val, n))
                     if n.func.attr != "setdefault":
                         rmw_lines.add(n.lineno)
                 elif isinstance(n, (ast.Assign, ast.AugAssign, ast.AnnAssign)):
@@ -279,17 +321,23 @@ def scan(repo=None):
                         continue
                     for t in tgts:
                         if isinstance(t, ast.Attribute) and fs.is_field_expr(t.value):
-                            writes.append((n.lineno, t.value, t.attr, val))
+                            writes.append((n.lineno, t.value, t.attr, val, t))
                             if isinstance(n, ast.AugAssign) or _mentions_attr(val, t.value, t.attr):
                                 rmw_lines.add(n.lineno)     # x.a += 1 / x.a = x.a + 1: read-modify-write
                         elif isinstance(t, ast.Subscript) and _dict_of(t.value) is not None and fs.is_field_expr(_dict_of(t.value)):
                             # f.__dict__["a"] = v / vars(f)["a"] = v
                             a = _const_str(t.slice)
-                            writes.append((n.lineno, _dict_of(t.value), a if a is not None else "<dynamic>", val))
+                            writes.append((n.lineno, _dict_of(t.value), a if a is not None else "<dynamic>", val, t))
+                        elif isinstance(t, ast.Subscript) and isinstance(t.value, ast.Name) and t.value.id in fs.fieldish \
+                                and t.value.id not in ("self", "cls") and t.value.id in fs.container_aliases():
+                            # d = getattr(f, "_registry", ..)[k] ... d[h] = v: an entry of a container hanging off a shared Field
+                            writes.append((n.lineno, t.value, "<container>", val, t))
+                            if _guarded_by_membership(fn, n, t.value.id):
+                                rmw_lines.add(n.lineno)     # `if h not in d: d[h] = v` / `d.get(h) ... d[h] = v`: check-then-act
                         elif isinstance(t, ast.Subscript) and isinstance(t.value, ast.Attribute) and fs.is_field_expr(t.value.value) \
                                 and t.value.attr != "__dict__":
                             # f.attr[k] = v: an entry of a container hanging off a shared Field object
-                            writes.append((n.lineno, t.value.value, t.value.attr, val))
+                            writes.append((n.lineno, t.value.value, t.value.attr, val, t))
                             if isinstance(n, ast.AugAssign) or _mentions_attr(val, t.value.value, t.value.attr):
                                 rmw_lines.add(n.lineno)
                         elif isinstance(t, ast.Subscript) and isinstance(t.value, ast.Name) and t.value.id in module_dicts:
@@ -301,11 +349,13 @@ def scan(repo=None):
                                          "publishedIncomplete" if _mutated_after_publish(fn, n, t, tgts)
                                          else "keyedCache",
                                          "line": n.lineno, "events": {}, "first_line": _first_line(fn), "last_line": fn.end_lineno})
-            for lineno, tgt, attr, val in writes:
+            for lineno, tgt, attr, val, wnode in writes:
                 tgt_s = ast.unparse(tgt)
                 # read back: the same function later hands the object to `<tgt>.__set__(..)` (which stores under
                 # and reports errors with that attribute) or reads `getattr(<tgt>, attr)` / `<tgt>.<attr>`
-                events = {"W": lineno, "S": [], "R": [], "N": [], "spans": _stmt_spans(fn)}
+                # "ops": the same events at BYTECODE granularity - the source span of the node whose instruction (CALL /
+                # STORE_ATTR / STORE_SUBSCR) performs the access
+                events = {"W": lineno, "S": [], "R": [], "N": [], "spans": _stmt_spans(fn), "ops": [["W"] + _span(wnode)]}
                 read_back = False
                 rhs_nodes = set()
                 for st in ast.walk(fn):
@@ -315,6 +365,7 @@ def scan(repo=None):
                             isinstance(st.value.func, ast.Name) and st.value.func.id == "Structure" and \
                             st.lineno not in events["N"]:
                         events["N"].append(st.lineno)
+                        events["ops"].append(["N"] + _span(st.value))
                 # local names bound to the very object (`matched = field`): handing THEM to `__set__` reads the attribute too
                 aliases = {tgt_s}
                 for st in ast.walk(fn):
@@ -327,11 +378,13 @@ def scan(repo=None):
                             read_back = True
                             if _stmt_line(fn, m) not in events["S"]:
                                 events["S"].append(_stmt_line(fn, m))
+                            events["ops"].append(["S"] + _span(m))
                         if (isinstance(m.func, ast.Name) and m.func.id == "getattr" and len(m.args) >= 2
                                 and _const_str(m.args[1]) == attr and ast.unparse(m.args[0]) == tgt_s):
                             read_back = True
                             # evaluation order inside one statement: right-hand side of an assignment first
                             events["R"].append([_stmt_line(fn, m), [0 if id(m) in rhs_nodes else 1, m.lineno, m.col_offset]])
+                            events["ops"].append(["R"] + _span(m))
                     elif isinstance(m, ast.Attribute) and isinstance(m.ctx, ast.Load) and m.attr == attr \
                             and ast.unparse(m.value) == tgt_s and tgt_s != "self":
                         read_back = True
